@@ -13,6 +13,7 @@ func init() {
 func c02(c *q.Ctx) {
 	allK9Operations(c, ledgerK9(c))
 	inBlockDistinct(c)
+	utxoCacheRemove(c)
 	poolReload(c)
 	zeroOutputTest(c)
 	const utxo = "bcs/ledger/xledger/state/utxo::"
